@@ -371,7 +371,8 @@ def gen_neighbour(r, case, kind=None):
     rec = r.randint(0, nrec - 1)
     tool = case["tool"]
     nanable = tool.startswith("nan")
-    kind = kind or r.choice(["random", "random", "corner", "corner", "nan"] if nanable else ["random", "corner", "corner"])
+    kind = kind or r.choice(["random", "random", "corner", "corner", "nan", "far", "far"] if nanable
+                            else ["random", "corner", "corner", "far"])
     new = []
     for c in range(ncell):
         l, u = cb[c]
@@ -384,6 +385,10 @@ def gen_neighbour(r, case, kind=None):
             new.append(far if r.chance(0.7) else (far + (1.0 if far == u else -1.0) * r.loguniform(1e-3, 1e3)))
         elif kind == "nan":
             new.append(r.uniform(l, u) if old != old else float("nan"))
+        elif kind == "far":
+            # a record far outside the bounds replaces / is replaced by an ordinary one (value -> value also next to NaNs)
+            w = (u - l) if u > l else 1.0
+            new.append(r.choice([u + w * r.loguniform(1.0, 1e3), l - w * r.loguniform(1.0, 1e3)]))
         else:
             new.append(gen_value(r, l, u, 0.2 if nanable else 0.0))
     if case.get("arr_dtype"):
@@ -733,6 +738,48 @@ def classify(case, nb, site, touched_nan):
     return f"C07:{tool}:{site}"
 
 
+KNOWN_NAN_SUFFIXES = (":size-counts-nans", ":nan-to-value")
+
+
+def clipped_statistic(tool, col, l, u, dtype=None):
+    """what the tool must hand to its mechanism for one cell: the statistic of the CLIPPED sub-array (numpy, harness side)"""
+    c = np.clip(np.asarray(col, dtype=float), l, u)
+    dt = np.float32 if dtype == "float32" else None
+    with np.errstate(all="ignore"), warnings.catch_warnings():
+        warnings.simplefilter("ignore")
+        if tool in ("nanmean", "mean"):
+            return float((np.nanmean if tool.startswith("nan") else np.mean)(c, dtype=dt))
+        if tool in ("nanvar", "nanstd", "var", "std"):
+            return float((np.nanvar if tool.startswith("nan") else np.var)(c, dtype=dt))
+        if tool in ("nansum", "sum"):
+            return float((np.nansum if tool.startswith("nan") else np.sum)(c, dtype=dt))
+    return None
+
+
+def refine_nan_signature(case, nb, sig, i, va, vb, M1, M2, noise):
+    """A sensitivity violation of a nan-variant in a slice with NaNs is one of the recorded defects only if the inputs
+    ARE the statistics of the clipped slices (then the sensitivity is what is wrong: it counts NaNs / ignores NaN->value).
+    If an input is not the clipped statistic, a record reached the statistic unclipped: a different defect."""
+    tool = case["tool"]
+    if not sig.endswith(KNOWN_NAN_SUFFIXES) or case.get("dtype") in ("int", "intp"):
+        return sig
+    ncell = M1.shape[1]
+    if i >= ncell:
+        return sig
+    l, u = cell_bounds(case, ncell)[i]
+    for v, M in ((va, M1), (vb, M2)):
+        e = clipped_statistic(tool, M[:, i], l, u, case.get("dtype"))
+        if e is None or e != e or v != v:
+            continue
+        if abs(e - v) > noise + 1e-9 * max(abs(e), abs(v)):
+            return f"C07:{tool}:out-of-bounds-not-clipped"
+    if tool == "nansum":
+        old, new = M1[nb["rec"], i], M2[nb["rec"], i]
+        if old == old and new == new:          # value -> value: not the NaN->value defect
+            return "C07:nansum:sensitivity"
+    return sig
+
+
 def direct_check(case, nb, forced_seed=1):
     """Run the tool on D and D'.  Returns (violation | None, info) with violation = (signature, what, data)"""
     fam = case["family"]
@@ -788,6 +835,7 @@ def direct_check(case, nb, forced_seed=1):
     worst = (0.0, None)
     qsum = 0.0
     noises = noise_of(case, len(c1))
+    first_known = None
     for i, (a, b) in enumerate(zip(c1, c2)):
         ca, cb_ = call_cfg(a), call_cfg(b)
         same = len(ca) == len(cb_) and all((x == y) or (isinstance(x, float) and isinstance(y, float) and x != x and y != y)
@@ -834,12 +882,25 @@ def direct_check(case, nb, forced_seed=1):
         if ratio > worst[0]:
             worst = (ratio, i)
         if not ratio <= 1 + SLACK:
-            data["offending"] = {"index": i, "cls": a.cls, "input_D": va, "input_D'": vb, "sensitivity": sens, "epsilon": e_i}
+            off = {"index": i, "cls": a.cls, "input_D": va, "input_D'": vb, "sensitivity": sens, "epsilon": e_i}
+            tn = touched_nan
             if fam == "stat" and len(c1) == len(nan_cols):
-                touched_nan = bool(nan_cols[i])          # NaNs in THIS cell's sub-array (D or D')
-            return (classify(case, nb, "sensitivity", touched_nan),
-                    f"{case['tool']}: invocation {i} ({a.cls}) input moves {va!r} -> {vb!r} (|d|={d:.6g}) but sensitivity={sens:.6g} "
-                    f"(ratio {ratio:.6g})", data), info
+                tn = bool(nan_cols[i])          # NaNs in THIS cell's sub-array (D or D')
+            sig = classify(case, nb, "sensitivity", tn)
+            if fam == "stat":
+                sig = refine_nan_signature(case, nb, sig, i, va, vb, M1, M2, noises[i])
+            v_here = (sig, f"{case['tool']}: invocation {i} ({a.cls}) input moves {va!r} -> {vb!r} (|d|={d:.6g}) but "
+                           f"sensitivity={sens:.6g} (ratio {ratio:.6g})"
+                           + (" — the input is not the statistic of the clipped data" if sig.endswith("not-clipped") else ""),
+                      dict(data, offending=off))
+            if sig.endswith(KNOWN_NAN_SUFFIXES):
+                # a recorded defect: remember it, but keep looking at the other cells for a different one
+                if first_known is None:
+                    first_known = v_here
+                continue
+            return v_here, info
+    if first_known is not None:
+        return first_known, info
     if not total <= eps * factor * (1 + SLACK):
         data["offending"] = {"sum": total, "epsilon": eps, "factor": factor}
         return (classify(case, nb, "budget", touched_nan),
